@@ -35,6 +35,10 @@ fn registry() -> Vec<PartDesc> {
     v.push(desc::<props::c11::C11Free>("exploration"));
     v.push(desc::<props::c12::C12>("exploration"));
     v.push(desc::<props::c08::C08>("fault_enumeration"));
+    v.push(desc::<props::factory::C13>("fault_enumeration"));
+    v.push(desc::<props::factory::C14>("exploration"));
+    v.push(desc::<props::factory::C15>("exploration"));
+    v.push(desc::<props::factory::C15Bucket>("exploration"));
     #[cfg(feature = "async-trait")]
     v.push(desc::<props::c01::C01At>("exploration"));
     #[cfg(not(feature = "async-trait"))]
